@@ -181,3 +181,31 @@ Definition chk_frame_filter (n : nat) (F : fframe) (m : list bool) (Out : fframe
     forallb (fun j => frow_eqb (frame_row Out j) (frame_row F (nth j (true_positions m) 0))) js;
     frame_ok (count_true m) Out;
     frame_ok n F && (length m =? n) ].
+
+(* ---------- C10: the glue of reduce around the calls (Reduce2.v) ---------- *)
+From NP Require Import Dtype Names Reduce2.
+Definition split_eqb (a b : list str * list parg) : bool :=
+  list_eqb str_eqb (fst a) (fst b) && list_eqb parg_eqb (snd a) (snd b).
+(* known: the strings among the arguments that name a known column; obs_split: what the user function saw as
+   (columns, extra arguments) (None: not observable, the frame has no rows); outs: the output names the function
+   returned, in order; obs_cols: the columns of the result *)
+Definition chk_reduce_glue (known : list str) (args : list parg) (obs_split : option (res (list str * list parg)))
+                           (outs : list str) (obs_cols : option (list ocol)) : bool :=
+  match obs_split with
+  | Some o => res_eqb split_eqb (m_reduce_split (fun s => mem_str s known) args) o
+  | None => true
+  end &&
+  match obs_cols with
+  | Some oc => list_eqb ocol_eqb (m_infer_nesting outs) oc && list_eqb ocol_eqb (spec_infer_nesting outs) oc
+  | None => true
+  end.
+
+(* ---------- C08: the content of a partially loaded nested column (Io2.v) ---------- *)
+From NP Require Import Io2.
+(* F: physical read-back of the FULL read of the file's nested column; sel: requested fields in request order;
+   Pt: physical read-back of the partial load.  A: model = implementation, B: spec = implementation *)
+Definition chk_partial_load (F : chunked) (sel : list string) (Pt : chunked) : list bool :=
+  [ res_eqb lcol_eqb (res_map abs (m_partial_load F sel)) (Ok (abs Pt));
+    lcol_eqb (spec_select_fields (abs F) sel) (abs Pt);
+    wf_b Pt;
+    wf_b F ].
